@@ -4,3 +4,4 @@
 #![allow(dead_code, unused_imports, missing_debug_implementations, missing_docs, unreachable_pub, unnameable_types)]
 
 pub(crate) mod env;
+
